@@ -1210,11 +1210,5 @@ def known_loop_inflate_diag(prog):
     return 'diagonalize' in ops and bool(ops & {'inflate', 'take', 'concat', 'stack'})
 
 
-def known_loop_zero_size_diag_unravel(prog):
-    """a diagonal, an unravel and a takediag in a program with an axis of length zero (corpus/C01/loop-zero-size-diagonalize-unravel-takediag.json)"""
-    ops = {n['op'] for n in prog['nodes']}
-    return {'diagonalize', 'unravel', 'takediag'} <= ops and any(0 in n['t'][1] for n in prog['nodes'])
-
-
 def known_loop(prog):
-    return known_loop_inflate_diag(prog) or known_loop_zero_size_diag_unravel(prog)
+    return known_loop_inflate_diag(prog)
